@@ -40,7 +40,9 @@ def build(token, meta):
         dl = DownloadableMediaMessageAttributes("image/jpeg", 1000 + token, bytes([token % 256]) * 32, "https://mmg.example/" + tag, bytes([(token + 1) % 256]) * 32)
         return ImageDownloadableMediaMessageProtocolEntity(ImageAttributes(dl, 640 + token, 480, "caption secret-" + tag, b"\xff\xd8jpeg" + tag.encode()), meta)
     if k == "location":
-        return LocationMediaMessageProtocolEntity(LocationAttributes(52.5 + token / 1000.0, 13.25, "place secret-" + tag, "addr " + tag, "http://m.example/" + tag), meta)
+        # (every third location lies on the equator / the prime meridian: coordinates that are exactly zero)
+        lat, lon = [(52.5 + token / 1000.0, 13.25), (0.0, 36.75 + token / 1000.0), (-1.25, 0.0)][(token // len(KINDS)) % 3]
+        return LocationMediaMessageProtocolEntity(LocationAttributes(lat, lon, "place secret-" + tag, "addr " + tag, "http://m.example/" + tag), meta)
     return ContactMediaMessageProtocolEntity(ContactAttributes("name secret-" + tag, ("BEGIN:VCARD\nFN:secret-%s\nEND:VCARD" % tag).encode()), meta)
 
 
@@ -59,3 +61,25 @@ def canon(entity):
         return bytes(m.SerializeToString())
     except Exception as e:
         return ("<unserialisable %s>" % type(e).__name__).encode()
+
+
+def content(entity):
+    """what the application composed / was shown, read off the attribute objects themselves (independent of the library's converter, whose
+    slips would otherwise cancel out on both sides of a comparison): nested (class, sorted fields) tuples"""
+    def walk(o, depth=0):
+        if o is None or isinstance(o, (bool, int, float, str, bytes)):
+            return o
+        if isinstance(o, bytearray):
+            return bytes(o)
+        if isinstance(o, (list, tuple)):
+            return tuple(walk(x, depth + 1) for x in o)
+        if isinstance(o, dict):
+            return tuple(sorted((str(k), walk(v, depth + 1)) for k, v in o.items()))
+        if depth > 12:
+            return "<deep>"
+        d = getattr(o, "__dict__", None)
+        if d is None:
+            return repr(o)
+        return (type(o).__name__, tuple(sorted((k.lstrip("_"), walk(v, depth + 1)) for k, v in d.items()
+                                               if k.lstrip("_") not in ("sender_key_distribution_message",))))
+    return walk(getattr(entity, "message_attributes", None))
